@@ -8,8 +8,11 @@ from . import core, env, tlc
 
 
 def registry():
-    from . import p_binary
+    from . import p_binary, p_layout, p_file
     return {
+        "C04": p_file.run_c04,
+        "C05": p_file.run_c05,
+        "C03": p_layout.run_c03,
         "C01": p_binary.run_c01,
         "C02": p_binary.run_c02,
     }
